@@ -151,8 +151,11 @@ def generate(seed, tier):
     pool = CHANNEL_POOL[converter]
     names = rng.sample(pool, rng.randrange(3, len(pool) + 1))
     files = gen_files(rng, converter, names, tier)
-    return {'world': 'batch', 'converter': converter, 'recurse': rng.chance(0.6), 'config': gen_config(rng, converter, names),
-            'files': files, 'runs': gen_runs(rng, len(files))}
+    sc = {'world': 'batch', 'converter': converter, 'recurse': rng.chance(0.6), 'config': gen_config(rng, converter, names),
+          'files': files, 'runs': gen_runs(rng, len(files))}
+    if rng.chance(0.25):
+        sc['relative_paths'] = True      # relative input and output paths, working directory = their parent
+    return sc
 
 
 # ------------------------------------------------------------------------------------------------
